@@ -117,6 +117,7 @@ macro_rules! on_shape {
 on_shape!(k_index_bijection_5, 7, check_shape_basics([5]));
 on_shape!(k_index_bijection_1, 7, check_shape_basics([1]));
 on_shape!(k_index_bijection_2x3, 7, check_shape_basics([2, 3]));
+on_shape!(k_index_bijection_1x2x2, 7, check_shape_basics([1, 2, 2]));
 on_shape!(k_index_bijection_3x1, 7, check_shape_basics([3, 1]));
 on_shape!(k_index_bijection_2x3x2, 7, check_shape_basics([2, 3, 2]));
 on_shape!(k_index_bijection_3x1x4, 7, check_shape_basics([3, 1, 4]));
@@ -135,7 +136,25 @@ on_shape!(k_index_get_2x2x2x2, 18, check_get::<4, 4>([2, 2, 2, 2]));
 
 on_shape!(k_index_iter_indices_4, 7, check_iter_indices([4]));
 on_shape!(k_index_iter_indices_2x3, 8, check_iter_indices([2, 3]));
+on_shape!(k_index_iter_indices_1x3, 8, check_iter_indices([1, 3]));
+on_shape!(k_index_iter_indices_1x1x2, 8, check_iter_indices([1, 1, 2]));
 on_shape!(k_index_iter_indices_3x1x2, 8, check_iter_indices([3, 1, 2]));
 on_shape!(k_index_iter_indices_2x2x1x2, 10, check_iter_indices([2, 2, 1, 2]));
+
+/// C16 / C17: a declared shape whose element count does not fit a usize is rejected (not wrapped around,
+/// not a panic): with no data, `Array::new` accepts a two-axis shape exactly when one length is 0.
+/// Complete over all pairs of usize lengths.
+#[kani::proof]
+#[kani::unwind(6)]
+fn k_index_new_absurd_shape() {
+    let a: usize = kani::any();
+    let b: usize = kani::any();
+    let r = Array::<u8>::new(Vec::new(), Shape(vec![a, b]));
+    assert!(r.is_ok() == (a == 0 || b == 0), "an empty data vector fits a shape iff its true element count is 0");
+    let one = Array::<u8>::new(vec![7u8], Shape(vec![a, b]));
+    assert!(one.is_ok() == (a == 1 && b == 1), "one value fits only the shape [1, 1]");
+    kani::cover!(a > 1 << 40 && b > 1 << 40);
+    kani::cover!(a == 0);
+}
 
 playback_tests!("index");
